@@ -76,7 +76,11 @@ class DictEncoder:
         if collections.is_array(value):
             return type(value)(self.encode(val, var, wrapped) for val in value)
 
-        if isinstance(value, (dict, int, float, str, bool)):
+        if isinstance(value, dict):
+            # The result must not share state with the model instance
+            return dict(value)
+
+        if isinstance(value, (int, float, str, bool)):
             return value
 
         if isinstance(value, Enum):
